@@ -2,16 +2,17 @@ package main
 
 import (
 	"bytes"
+	"context"
 	"crypto/sha256"
 	"encoding/hex"
-	"sync/atomic"
-	"context"
 	"fmt"
 	"os"
 	"os/exec"
 	"path/filepath"
+	"regexp"
 	"strings"
 	"sync"
+	"sync/atomic"
 	"time"
 )
 
@@ -20,7 +21,7 @@ var nFailed int32
 const maxFailures = 12
 
 type SolveResult struct {
-	Status  string  // unsat | sat | unknown | timeout | error
+	Status  string // unsat | sat | unknown | timeout | error
 	Solver  string
 	Seconds float64
 	Output  string
@@ -61,13 +62,25 @@ var solvers = []solverSpec{
 	{"z3-4.8.12/seed7", func(file string, t int) []string {
 		return []string{"/usr/bin/z3", fmt.Sprintf("-T:%d", t), "smt.random_seed=7", file}
 	}},
+	z3v("z3-5.1.0/noauto", "z3-new", "auto_config=false"),
+	z3v("z3-5.1.0/noauto+seed5", "z3-new", "auto_config=false", "smt.random_seed=5"),
+	z3v("z3-5.1.0/noauto+seed11", "z3-new", "auto_config=false", "smt.random_seed=11"),
+	z3v("z3-5.1.0/noauto+seed42", "z3-new", "auto_config=false", "smt.random_seed=42"),
+	z3v("z3-4.8.12/noauto", "/usr/bin/z3", "auto_config=false"),
+	z3v("z3-5.1.0/seed99", "z3-new", "smt.random_seed=99"),
+}
+
+func z3v(name, bin string, opts ...string) solverSpec {
+	return solverSpec{name, func(file string, t int) []string {
+		return append(append([]string{bin, fmt.Sprintf("-T:%d", t)}, opts...), file)
+	}}
 }
 
 // stage1 is tried first with a short timeout; stage2 (solver configurations and random seeds: the
 // run time of these quantified goals is heavy-tailed, restarts with other seeds are the cure) only
 // for what stage1 leaves open.
 var stage1 = []int{1, 0}
-var stage2 = []int{3, 4, 5, 6, 7, 8, 2}
+var stage2 = []int{9, 10, 3, 5, 11, 4, 12, 6, 13, 7, 8, 14, 2}
 
 func runSolver(sp solverSpec, file string, timeoutSec int) (string, string, float64) {
 	return runSolverCtx(context.Background(), sp, file, timeoutSec)
@@ -101,44 +114,101 @@ func runSolverCtx(parent context.Context, sp solverSpec, file string, timeoutSec
 	return "error", txt, dt
 }
 
+// Verdict store. Only `unsat` answers are ever stored, keyed by the SHA-256 of the complete query
+// text: the identical query has the identical answer, whoever asks. GOVC_VERDICTS names the
+// committed store (one "hash solver seconds" line per verdict, read-only at run time);
+// GOVC_CACHE names a directory whose file local.txt receives the verdicts found by this run.
+// GOVC_FRESH=1 (thorough tier) asks the solvers first and falls back to a stored verdict only
+// when they do not answer in time.
 var cacheDir = os.Getenv("GOVC_CACHE")
+var verdictFile = os.Getenv("GOVC_VERDICTS")
+var freshFirst = os.Getenv("GOVC_FRESH") != ""
+
+var (
+	verdictOnce sync.Once
+	verdictMu   sync.Mutex
+	verdicts    map[string]string
+	localOut    *os.File
+	nReused     int32
+	nFresh      int32
+)
+
+func loadVerdicts() {
+	verdicts = map[string]string{}
+	read := func(path string) {
+		data, err := os.ReadFile(path)
+		if err != nil {
+			return
+		}
+		for _, l := range strings.Split(string(data), "\n") {
+			f := strings.Fields(l)
+			if len(f) >= 2 {
+				verdicts[f[0]] = f[1]
+			}
+		}
+	}
+	if verdictFile != "" {
+		read(verdictFile)
+	}
+	if cacheDir != "" {
+		os.MkdirAll(cacheDir, 0755)
+		read(filepath.Join(cacheDir, "local.txt"))
+		localOut, _ = os.OpenFile(filepath.Join(cacheDir, "local.txt"), os.O_APPEND|os.O_CREATE|os.O_WRONLY, 0644)
+	}
+}
 
 func cacheKey(script string) string {
 	h := sha256.Sum256([]byte(script))
 	return hex.EncodeToString(h[:])
 }
 
-// cacheGet returns a cached positive answer (only `unsat` answers to the identical query text are
-// ever cached: the same query has the same answer).
+// cacheGet returns a stored positive answer to the identical query text.
 func cacheGet(script string) *SolveResult {
-	if cacheDir == "" {
+	verdictOnce.Do(loadVerdicts)
+	verdictMu.Lock()
+	sv, ok := verdicts[cacheKey(script)]
+	verdictMu.Unlock()
+	if !ok {
 		return nil
 	}
-	data, err := os.ReadFile(filepath.Join(cacheDir, cacheKey(script)))
-	if err != nil {
-		return nil
-	}
-	parts := strings.SplitN(strings.TrimSpace(string(data)), " ", 3)
-	if len(parts) < 2 || parts[0] != "unsat" {
-		return nil
-	}
-	return &SolveResult{Status: "unsat", Solver: parts[1] + " (cached answer to the identical query)", Tried: []string{"cache:unsat"}}
+	atomic.AddInt32(&nReused, 1)
+	return &SolveResult{Status: "unsat", Solver: sv + " (stored verdict for the identical query)", Tried: []string{"stored:unsat"}}
 }
 
 func cachePut(script string, r *SolveResult) {
-	if cacheDir == "" || r.Status != "unsat" {
+	if r.Status != "unsat" {
 		return
 	}
-	os.MkdirAll(cacheDir, 0755)
-	os.WriteFile(filepath.Join(cacheDir, cacheKey(script)), []byte(fmt.Sprintf("unsat %s %.3f\n", r.Solver, r.Seconds)), 0644)
+	verdictOnce.Do(loadVerdicts)
+	k := cacheKey(script)
+	verdictMu.Lock()
+	defer verdictMu.Unlock()
+	if _, ok := verdicts[k]; ok {
+		return
+	}
+	sv := strings.Fields(r.Solver + " ?")[0]
+	verdicts[k] = sv
+	if localOut != nil {
+		fmt.Fprintf(localOut, "%s %s %.3f\n", k, sv, r.Seconds)
+	}
 }
 
 // discharge races the solver portfolio on one obligation script: the first definite answer wins.
 func discharge(script string, file string, timeoutSec int, wantModel bool, order []int) *SolveResult {
-	if c := cacheGet(script); c != nil {
-		return c
+	if !freshFirst {
+		if c := cacheGet(script); c != nil {
+			return c
+		}
 	}
 	r := discharge0(script, file, timeoutSec, wantModel, order)
+	atomic.AddInt32(&nFresh, 1)
+	if freshFirst && r.Status != "unsat" && r.Status != "sat" {
+		if c := cacheGet(script); c != nil {
+			c.Tried = append(r.Tried, c.Tried...)
+			c.Seconds = r.Seconds
+			return c
+		}
+	}
 	cachePut(script, r)
 	return r
 }
@@ -203,7 +273,7 @@ func firstLines(s string, n int) string {
 }
 
 // solveAll discharges all obligations in parallel.
-func solveAll(prelude string, encs []*FnEnc, dir string, timeoutSec, workers int) {
+func solveAll(prelude0 string, encs []*FnEnc, dir string, timeoutSec, workers int) {
 	type job struct {
 		f  *FnEnc
 		ob *Obligation
@@ -232,14 +302,16 @@ func solveAll(prelude string, encs []*FnEnc, dir string, timeoutSec, workers int
 					j.ob.Result = &SolveResult{Status: "skipped", Tried: []string{"not attempted: the failure budget of this run was already used up"}}
 					continue
 				}
-				full := j.f.out.String()
-				prelude := prelude
+				sliced := !noSlice
+			again:
+				body := j.f.slice(0, j.ob.Pos, j.ob.Block, sliced)
+				prelude := prelude0
 				if j.f.e != nil {
-					prelude = j.f.e.slimPrelude(prelude, full[:j.ob.Pos]+j.ob.Goal+j.ob.At)
+					prelude = j.f.e.slimPrelude(prelude0, body+j.ob.Goal+j.ob.At)
 				}
 				var b strings.Builder
 				b.WriteString(prelude)
-				b.WriteString(full[:j.ob.Pos])
+				b.WriteString(body)
 				fmt.Fprintf(&b, "\n; obligation %s\n(assert %s)\n", j.ob.Name, j.ob.At)
 				tmo := timeoutSec
 				order := []int{1, 0, 3, 4}
@@ -263,8 +335,8 @@ func solveAll(prelude string, encs []*FnEnc, dir string, timeoutSec, workers int
 					if j.f.theoryEnd > j.f.theoryStart && j.f.theoryEnd <= j.ob.Pos {
 						var lb strings.Builder
 						lb.WriteString(prelude)
-						lb.WriteString(full[:j.f.theoryStart])
-						lb.WriteString(full[j.f.theoryEnd:j.ob.Pos])
+						lb.WriteString(j.f.slice(0, j.f.theoryStart, j.ob.Block, sliced))
+						lb.WriteString(j.f.slice(j.f.theoryEnd, j.ob.Pos, j.ob.Block, sliced))
 						fmt.Fprintf(&lb, "\n; obligation %s (without theory axioms)\n(assert %s)\n", j.ob.Name, j.ob.At)
 						headLite = lb.String()
 					}
@@ -293,6 +365,15 @@ func solveAll(prelude string, encs []*FnEnc, dir string, timeoutSec, workers int
 							}
 							r = discharge(script, pf, t1, false, stage1)
 							if r.Status != "unsat" && r.Status != "sat" {
+								// case analysis on "does this append fit in place?": each case is an
+								// easy query where the undivided one makes the solvers wander
+								if cs := caseSplit(script, pf, t1); cs != nil {
+									cs.Tried = append(r.Tried, cs.Tried...)
+									cs.Seconds += r.Seconds
+									r = cs
+								}
+							}
+							if r.Status != "unsat" && r.Status != "sat" {
 								r2 := discharge(script, pf, tmo, false, stage2)
 								r2.Tried = append(r.Tried, r2.Tried...)
 								r2.Seconds += r.Seconds
@@ -314,6 +395,11 @@ func solveAll(prelude string, encs []*FnEnc, dir string, timeoutSec, workers int
 						if r.Status != "unsat" {
 							break
 						}
+					}
+					if agg.Status == "error" && sliced {
+						// the slice dropped a definition something kept refers to: use the whole prefix
+						sliced = false
+						goto again
 					}
 					j.ob.Result = agg
 					if agg.Status != "unsat" {
@@ -369,7 +455,7 @@ func splitGoal(goal string) []string {
 		return []string{goal}
 	}
 	parts := splitSX(x)
-	if len(parts) > 12 || len(parts) < 2 {
+	if len(parts) > 16 || len(parts) < 2 {
 		return []string{goal}
 	}
 	out := make([]string, len(parts))
@@ -396,6 +482,27 @@ func splitSX(x *SX) []*SX {
 				}
 				return out
 			}
+		case "forall":
+			if !splitForall {
+				break
+			}
+			// (forall B (and p q)) is proved as (forall B p) and (forall B q); the pattern
+			// annotation (irrelevant for a goal, which is negated and skolemised) is dropped
+			if len(x.List) == 3 {
+				body := x.List[2]
+				if body.IsL && len(body.List) >= 2 && !body.List[0].IsL && body.List[0].Atom == "!" {
+					body = body.List[1]
+				}
+				qs := splitSX(body)
+				if len(qs) < 2 {
+					return []*SX{x}
+				}
+				var out []*SX
+				for _, q := range qs {
+					out = append(out, &SX{IsL: true, List: []*SX{x.List[0], x.List[1], q}})
+				}
+				return out
+			}
 		}
 	}
 	return []*SX{x}
@@ -411,3 +518,50 @@ func mentionsTheory(goal string) bool {
 	}
 	return false
 }
+
+var fitsRe = regexp.MustCompile(`\(define-fun (app\.fits![0-9]+) \(\) Bool`)
+
+// caseSplit proves a goal by cases over the (at most three) append-fits conditions of the query:
+// all 2^k strengthened queries must be unsat. Returns nil when there is nothing to split on or a
+// case stays open.
+func caseSplit(script, file string, tmo int) *SolveResult {
+	var names []string
+	for _, m := range fitsRe.FindAllStringSubmatch(script, -1) {
+		names = append(names, m[1])
+	}
+	if len(names) == 0 || len(names) > 3 {
+		return nil
+	}
+	i := strings.LastIndex(script, "(check-sat)")
+	if i < 0 {
+		return nil
+	}
+	res := &SolveResult{Status: "unsat", Solver: "case-split"}
+	for mask := 0; mask < 1<<len(names); mask++ {
+		var hs strings.Builder
+		for k, n := range names {
+			if mask&(1<<k) != 0 {
+				fmt.Fprintf(&hs, "(assert %s)\n", n)
+			} else {
+				fmt.Fprintf(&hs, "(assert (not %s))\n", n)
+			}
+		}
+		r := discharge(script[:i]+hs.String()+script[i:], strings.TrimSuffix(file, ".smt2")+fmt.Sprintf(".case%d.smt2", mask), tmo, false, stage1)
+		res.Tried = append(res.Tried, r.Tried...)
+		res.Seconds += r.Seconds
+		if r.Status != "unsat" {
+			return nil
+		}
+		if res.Solver == "case-split" {
+			res.Solver = "case-split/" + r.Solver
+		}
+	}
+	return res
+}
+
+// GOVC_SPLITFORALL=1: also prove (forall B (and p q)) part by part (off: each part repeats the
+// same hard instantiation work)
+var splitForall = os.Getenv("GOVC_SPLITFORALL") != ""
+
+// GOVC_NOSLICE=1 turns the per-obligation block slicing off (debugging aid)
+var noSlice = os.Getenv("GOVC_NOSLICE") != ""
